@@ -286,6 +286,20 @@ async fn run_pair<TC: Configuration>(cc: &CaseCtx, rng: &mut Rng, l: &mut Local,
                 l.count("P1_shadowing_candidates", 1);
                 pc.judge(l, "P1-inserted-leaf-below-unchanged-interior-node", "existing-label", u.clone(), vec![AzksElement { label: *k, value: fresh_value }]).await;
             }
+            // boundary extensions: the all-zero extension has the SAME label value as the node itself,
+            // the all-one extension is the last label below it; plus the one-bit-longer zero extension
+            let mut ones = un.label;
+            for i in un.label.label_len..256 {
+                if bit_at(&ones, i) == 0 {
+                    ones = flip_bit(&ones, i);
+                }
+            }
+            let ones = NodeLabel::new(ones.label_val, 256);
+            let zeros = NodeLabel::new(un.label.get_prefix(un.label.label_len).label_val, 256);
+            for (rel, lab) in [("zero-extension-leaf", zeros), ("one-extension-leaf", ones), ("zero-extension-one-bit", NodeLabel::new(zeros.label_val, un.label.label_len + 1))] {
+                l.count("P1_shadowing_candidates", 1);
+                pc.judge(l, "P1-inserted-leaf-below-unchanged-interior-node", rel, u.clone(), vec![AzksElement { label: lab, value: fresh_value }]).await;
+            }
             // inserted *interior-length* label below
             if un.label.label_len < 250 {
                 let sub = below.get_prefix(un.label.label_len + 3);
